@@ -6,6 +6,7 @@ from pathlib import Path
 
 V = Path(__file__).resolve().parent.parent
 WHY = {
+    "F38": "whether `import b` is internal is decided by the presence of b.py in the collection, bad or not; treating an unparsable file as absent for import resolution would change the documented meaning of internal imports — not a defect to patch, a proviso the property text does not state.",
     "F39": "only the implicit-concatenation form has a small patch (STRING followed by (STRING|COMMENT)* NEWLINE, which needs loop state to drop the following tokens); the parenthesised and `;` forms need the statement structure, i.e. the parser. Only the clause 'unchanged by inserting docstrings' is affected; the output stays valid, idempotent, same tree.",
     "F35": "collect and recommend use the lexical parent/name of DIRECTORY consistently (recommend `.` finds the `_db.json` that collect `.` writes); making both absolute changes recommend's `relative=` title field and the paths printed — not a one-line patch.",
     "F17-C01": "`spec.md`'s patterns are searched over the whole flat text, string constants included; a repair needs either escaping `_pos=`/`=` inside dumped values in `flatten_ast.py` (changes the documented flat format that users write their own features against) or anchoring all 170 feature patterns — not small.",
